@@ -782,8 +782,8 @@ func (m *c09Mon) check(op, res string, cur *c09Snap) {
 			if d := cur.desc(r, cl.Cons[i].H); d != nil {
 				overlap++
 				if why := agree(&cl.Cons[i], d, true); why != "" {
-					m.violate("C09/set_canonical_requires_agreement/existing-consensus-state-disagrees-"+why,
-						fmt.Sprintf("c%d designated for r%d although its consensus state at %d (%+v) disagrees with the descriptor (%+v)", c, r, cl.Cons[i].H, cl.Cons[i], *d))
+					m.violate("C09/set_canonical_requires_agreement/existing-consensus-state-disagrees",
+						fmt.Sprintf("c%d designated for r%d although its consensus state at %d (%+v) disagrees (%s) with the descriptor (%+v)", c, r, cl.Cons[i].H, cl.Cons[i], why, *d))
 				}
 			}
 		}
@@ -808,13 +808,16 @@ func (m *c09Mon) check(op, res string, cur *c09Snap) {
 			if !newCons && !newDesc {
 				continue
 			}
-			which := "header-after-state-update"
+			which := "conflicting-header-accepted-after-state-update"
 			if newDesc {
-				which = "state-update-after-header"
+				which = "conflicting-state-update-accepted-after-header"
+			}
+			if f[0] != "lc_update" && !newDesc {
+				which = "conflicting-consensus-state-written-by-" + f[0]
 			}
 			if why := agree(cs, d, true); why != "" {
-				m.violate("C09/later_conflict_rejected/"+which+"-disagrees-"+why,
-					fmt.Sprintf("r%d c%d height %d: consensus state %+v vs descriptor %+v after %s", r, c, cs.H, *cs, *d, op))
+				m.violate("C09/later_conflict_rejected/"+which,
+					fmt.Sprintf("r%d c%d height %d: consensus state %+v vs descriptor %+v disagree (%s) after %s", r, c, cs.H, *cs, *d, why, op))
 			}
 		}
 	}
@@ -822,19 +825,28 @@ func (m *c09Mon) check(op, res string, cur *c09Snap) {
 	case "lc_update":
 		ci, _ := m.h.clientByTok(f[1])
 		r, canonical := prev.C2R[ci]
-		accepted := res == "ok" || res == "lc:ibc" && kv["w"] == "top" // the hub-side checks passed
-		if canonical && accepted {
-			// signer_rules: the hub let a header through on a canonical client
-			a := c09Actor(kv["pd"])
-			if kv["ps"] != kv["pd"] {
-				m.violate("C09/signer_rules/proposer-fields-differ", op)
+		if canonical && res == "ok" {
+			// signer_rules: a header was accepted on a canonical client — every key that signed it must be a
+			// bonded sequencer of that rollapp, and the header must carry the current revision
+			bad := ""
+			for _, v := range parseVals(kv["vals"]) {
+				if !v.Signs {
+					continue
+				}
+				if v.Actor < 0 || !prev.Bonded[v.Actor] {
+					bad = "signed by an unknown or unbonded key"
+				} else if prev.SeqRa[v.Actor] != r {
+					bad = "signed by a sequencer of another rollapp"
+				}
 			}
-			if a < 0 || !prev.Bonded[a] {
-				m.violate("C09/signer_rules/accepted-header-of-unknown-or-unbonded-signer", op)
-			} else if prev.SeqRa[a] != r {
-				m.violate("C09/signer_rules/accepted-header-names-sequencer-of-another-rollapp", fmt.Sprintf("client c%d of r%d, proposer %s of r%d: %s", ci, r, kv["pd"], prev.SeqRa[a], op))
-			} else if atou(kv["rev"]) != prev.Rev[r] {
-				m.violate("C09/signer_rules/accepted-header-of-wrong-revision", op)
+			if bad == "" && atou(kv["rev"]) != prev.Rev[r] {
+				bad = "wrong revision"
+			}
+			if bad != "" {
+				m.violate("C09/signer_rules/accepted-header-not-of-a-bonded-sequencer-of-the-rollapp-at-current-revision", bad+": "+op)
+			}
+			if a := c09Actor(kv["pd"]); a >= 0 && prev.SeqRa[a] != r {
+				m.r.Hit("signer/accepted-header-naming-a-proposer-of-another-rollapp")
 			}
 		}
 		if kv["w"] == "nested" && !strings.HasPrefix(res, "ante:") {
@@ -903,6 +915,7 @@ func (c *c09Gen) raMembers(ri int) []int {
 
 // what the generator needs to know about a rollapp, from the real state
 type c09Ra struct {
+	revStart   uint64
 	exists     bool
 	latest     uint64
 	prop, succ int
@@ -920,7 +933,7 @@ func (c *c09Gen) ra(cs *coreSnap, ri int) c09Ra {
 	r := cs.Ras[ri]
 	out.exists, out.prop, out.succ, out.tph = true, r.Prop, r.Succ, r.Tph
 	if n := len(r.Revs); n > 0 {
-		out.rev = r.Revs[n-1][0]
+		out.rev, out.revStart = r.Revs[n-1][0], r.Revs[n-1][1]
 	}
 	for _, st := range r.States {
 		if st.Num > 0 {
@@ -941,6 +954,9 @@ func (c *c09Gen) ra(cs *coreSnap, ri int) c09Ra {
 func (c *c09Gen) updateLine(ri int, ra c09Ra, ls *c09Snap, perturb bool, last bool) string {
 	g := c.g
 	n := uint64(1 + g.Intn(4))
+	if last && ra.rev > 0 && ra.latest+1 == ra.revStart && g.Chance(60) {
+		n = 1
+	}
 	start := ra.latest + 1
 	var roots, tss []string
 	for i := uint64(0); i < n; i++ {
@@ -1116,10 +1132,10 @@ func (c *c09Gen) headerLine(ci int, cs *coreSnap, ls *c09Snap) string {
 	}
 	c.r.Hit("header/" + name)
 	w := "top"
-	switch g.Intn(10) {
-	case 0, 1:
+	switch g.Intn(20) {
+	case 0:
 		w = "wrapped"
-	case 2:
+	case 1, 2:
 		w = "nested"
 	case 3:
 		w = "nestedwrapped"
@@ -1215,7 +1231,7 @@ func (c *c09Gen) misbLine(ci int, ls *c09Snap) string {
 		signer = 0
 	}
 	ht := tr.H + 1 + uint64(g.Intn(3))
-	ks := []string{"submit", "submitNested", "viaUpdate", "viaUpdateNested", "viaWrapped", "viaWrappedNested"}
+	ks := []string{"submit", "submit", "submitNested", "submitNested", "viaUpdate", "viaUpdate", "viaUpdateNested", "viaWrapped", "viaWrappedNested"}
 	k := ks[g.Intn(len(ks))]
 	c.r.Hit("misbehaviour/" + k)
 	vals := []hdrVal{{signer, 1, true}}
@@ -1309,8 +1325,19 @@ func (c *c09Gen) next(cs *coreSnap, ls *c09Snap, inBlock *bool) string {
 		}
 		perturb := g.Chance(25)
 		last := ra.awaiting
+		firstAfterFork := ra.rev > 0 && ra.latest+1 == ra.revStart
+		if firstAfterFork && !last && g.Chance(40) {
+			c.r.Hit("fork/rotation-started-before-first-update-of-new-revision")
+			return fmt.Sprintf("unbond a%d", ra.prop)
+		}
 		if last {
 			c.r.Hit("rotation/last-update")
+		}
+		if firstAfterFork {
+			c.r.Hit("fork/first-update-of-new-revision")
+			if last {
+				c.r.Hit("fork/first-update-of-new-revision-is-last-block-of-proposer")
+			}
 		}
 		return c.updateLine(ri, ra, ls, perturb, last)
 	case k < 72 && ra.prop >= 0 && !ra.awaiting:
